@@ -9,7 +9,9 @@ Model of the decision logic of the HTTP tile endpoint of `versatiles serve`:
   `get_encoding` (303-318: substring tests), fast/best goal (150-153), `ok_data` (255-290:
   incompressible rule by MIME, `optimize_compression(..).expect(..)`, `Content-Encoding`)
 * `versatiles_core/src/types/tile_format.rs`            – `as_mime_str`
-* `versatiles/src/tools/serve.rs:117-122`               – `--flip-y` wraps the reader in a `TilesConvertReader`
+* `versatiles/src/tools/serve.rs:102-113`               – `--override-input-compression` is applied to the
+  opened reader FIRST, then `--flip-y` / `--swap-xy` wrap it in a `TilesConvertReader` (which copies the
+  reader's parameters when it is built), so the server sees the overridden compression in every mode
 
 NOT modelled: axum/hyper (request parsing, routing, body framing) – exercised by raw HTTP exchanges
 in `harness/src/c05.rs`.  Paths and header values are ASCII (what a URI can carry unescaped);
@@ -72,6 +74,7 @@ structure Source where
   comp : Comp                          -- `parameters.tile_compression`
   mime : String                        -- `parameters.tile_format.as_mime_str()`
   flipY : Bool                         -- served with `--flip-y`
+  swapXY : Bool := false               -- served with `--swap-xy`
   lookup : Nat → Nat → Nat → Option Bytes   -- reader's `get_tile_data(z, x, y)` for IN-RANGE coordinates
   tilejson : Bytes                     -- what `build_tile_json` produces (opaque here, see C17)
 
@@ -107,19 +110,27 @@ def classifyParts : List String → PathKind
 def classify (rest : String) : PathKind := classifyParts (asVec rest)
 
 /-- the coordinate a tile request addresses inside the reader, if it is inside the level:
-    range check (F9 repair), then `--flip-y` (`TilesConvertReader::get_tile_data`) -/
-def addressed (flipY : Bool) (z x y : Nat) : Option (Nat × Nat × Nat) :=
+    range check (F9 repair), then `TilesConvertReader::get_tile_data` maps the requested coordinate
+    back to the source: `--swap-xy` first, then `--flip-y` (converter.rs:167-182) -/
+def addressed (flipY swapXY : Bool) (z x y : Nat) : Option (Nat × Nat × Nat) :=
   if x ≥ 2 ^ z ∨ y ≥ 2 ^ z then none
-  else some (z, x, if flipY then 2 ^ z - 1 - y else y)
+  else
+    let x1 := if swapXY then y else x
+    let y1 := if swapXY then x else y
+    some (z, x1, if flipY then 2 ^ z - 1 - y1 else y1)
+
+/-- the compression the server assumes for the stored tiles (serve.rs:104-106: the override
+    replaces the container's declared compression before anything else looks at it) -/
+def effectiveComp (declared : Comp) (override : Option Comp) : Comp := override.getD declared
 
 /-- `TileSource::get_data`.  `err` → 400, `ok none` → 404. -/
 def getData (src : Source) (rest : String) : Res (Option SrcResp) :=
   match classify rest with
   | .tile z x y =>
-    match addressed src.flipY z x y with
+    match addressed src.flipY src.swapXY z x y with
     | none => .ok none
-    | some (z, x, y') =>
-      match src.lookup z x y' with
+    | some c =>
+      match src.lookup c.1 c.2.1 c.2.2 with
       | some b => .ok (some { blob := b, comp := src.comp, mime := src.mime })
       | none => .ok none
   | .bad => .err
@@ -184,6 +195,8 @@ def Resp.status : Resp → Option Nat
 * `C05 req <fast> <flip> <stored comp> <format> <tiles z/x/y,…|-> <accept hex|~> <rest hex>`
      → `200 ct=<mime> ce=<gzip|br|-> ` | `404` | `400` | `panic`
      (`tiles` = coordinates held by the container; header value and path as hex of ASCII bytes)
+* `C05 req2 <fast> <flip> <swap> <declared comp> <override comp|-> <format> <tiles> <accept hex|~> <rest hex>`
+     → same answers; the stored blobs are valid streams of the EFFECTIVE compression (override, else declared)
 * `C05 opt <comp> <raw><gzip><brotli> <fast|best|inc> <enc|nil|cut> <payload hex>`
      → `err` | `c=<comp> same=<0|1> dec=<hex|err>`   (real `optimize_compression`)
 * `C05 enc <accept hex|~>` → `gzip=<0|1> br=<0|1>`   (`get_encoding`, used for the unit-level stream)
@@ -229,6 +242,19 @@ def handle (args : List String) : String :=
         tilejson := [123, 125] }
       showResp (serveTile toy src { rest := rest, accept := acc, fast := fast })
     | _, _, _, _, _, _ => "bad-op"
+  | ["req2", fast, flip, swap, declared, ovr, fmt, tiles, accept, rest] =>
+    let acc : Option (Option String) := if accept == "~" then some none else (parseHexStr accept).map some
+    let ov : Option (Option Comp) := if ovr == "-" then some none else (parseComp ovr).map some
+    match parseBool fast, parseBool flip, parseBool swap, parseComp declared, ov, parseTiles tiles, acc, parseHexStr rest with
+    | some fast, some flip, some swap, some declared, some ov, some tiles, some acc, some rest =>
+      let payload : Bytes := [1, 2, 3]
+      let comp := effectiveComp declared ov
+      let src : Source := {
+        comp := comp, mime := mimeOf fmt, flipY := flip, swapXY := swap,
+        lookup := fun z x y => if tiles.contains (z, x, y) then some (toy.enc comp payload) else none,
+        tilejson := [123, 125] }
+      showResp (serveTile toy src { rest := rest, accept := acc, fast := fast })
+    | _, _, _, _, _, _, _, _ => "bad-op"
   | ["opt", comp, bits, goal, kind, payload] =>
     match parseComp comp, bits.toList, parseGoal goal, unhex payload with
     | some c, [r, g, b], some goal, some payload =>
